@@ -141,6 +141,8 @@ struct Program {
     /// a template context: an untyped float literal may be printed either as written or narrowed to the `float` the
     /// context names (the typer's conversion, C13); every other kind must keep its kind
     convertible: bool,
+    /// the module declares a pipeline and is compiled in pipeline mode (entry point, its attributes, its globals)
+    pipeline: bool,
 }
 
 /// Declaration / statement forms a literal can be written in (wave 6): `@T` = the scalar type the literal's suffix
@@ -172,6 +174,14 @@ pub const TEMPLATES: &[(&str, bool, &str, &str)] = &[
     ("parr", true, "void f_zq(float a_zq[@L]) {}\n", " a_zq["),
     ("arr2", true, "struct S_zq { float a_zq[2][@L]; };\n", " a_zq[2]["),
     ("index", true, "void f_zq(float a_zq[64]) { a_zq[@L]; }\n", "    a_zq["),
+    ("pattr", true, "[numthreads(@L, 1, 1)]\nvoid cs_zq() {}\nPipeline P_zq { ComputeShader = cs_zq; }\n", "numthreads("),
+    ("pgvar", false, "static @T g_zq = @L;\n[numthreads(8, 1, 1)]\nvoid cs_zq() { g_zq; }\nPipeline P_zq { ComputeShader = cs_zq; }\n", " g_zq = "),
+    ("plocal", false, "[numthreads(8, 1, 1)]\nvoid cs_zq() { @T v_zq = @L; }\nPipeline P_zq { ComputeShader = cs_zq; }\n", " v_zq = "),
+    ("retneg", false, "@T rf_zq() { return -@L; }\n", "    return "),
+    ("defargneg", false, "@T df_zq(@T a_zq = -@L) { return a_zq; }\nvoid f_zq() { df_zq(); }\n", " a_zq = "),
+    ("arrinitneg", false, "static const @T a_zq[2] = { -@L, -@L };\n", " a_zq[2] = { "),
+    ("callargneg", false, "void g_zq(@T a_zq) {}\nvoid f_zq() { g_zq(-@L); }\n", "    g_zq("),
+    ("caseneg", true, "void f_zq(int x_zq) { switch (x_zq) { case -@L: break; default: break; } }\n", "        case "),
     ("enum2", true, "enum E_zq { Z_zq, A_zq = @L, B_zq };\nstatic const int g_zq = (int)B_zq;\n", "A_zq = "),
 ];
 
@@ -220,7 +230,7 @@ fn build_program(ctx: &str, lit: &str, rng_split: usize, msl: bool) -> Result<Pr
     };
     let is_int = matches!(src, RefNum::Int { .. });
     let main = |body: &str| vec![("main.rssl".to_string(), body.to_string())];
-    let mut p = Program { files: Vec::new(), defines: Vec::new(), want_kind: Some(kind), negated: false, narrow_to_f32: false, convertible: false };
+    let mut p = Program { files: Vec::new(), defines: Vec::new(), want_kind: Some(kind), negated: false, narrow_to_f32: false, convertible: false, pipeline: false };
     match ctx {
         "stmt" => p.files = main(&format!("void f_zq() {{ {}; }}\n", lit)),
         "neg" => {
@@ -343,6 +353,13 @@ fn build_program(ctx: &str, lit: &str, rng_split: usize, msl: bool) -> Result<Pr
             // is then the converted constant; only the value is compared in the integer-only contexts
             p.want_kind = if int_only { None } else { Some(kind) };
             p.convertible = true;
+            if ctx.ends_with("neg") {
+                if kind == "IntU32" {
+                    return Err("unary minus on an unsigned literal is arithmetic (C13), not a spelling".into());
+                }
+                p.negated = true;
+            }
+            p.pipeline = tpl.contains("Pipeline ");
             p.files = main(&tpl.replace("@T", ty).replace("@V", vec).replace("@L", lit));
         }
     }
@@ -388,7 +405,9 @@ fn extract(ctx: &str, text: &str) -> Option<String> {
         }
         _ => {
             let needle = template_of(ctx)?.3;
-            literal_prefix(&after(needle)?)
+            // Metal spells the thread group size of an entry point `[[max_total_threads_per_threadgroup(x * y * z)]]`
+            let rest = if ctx == "pattr" { after(needle).or_else(|| after("per_threadgroup(")) } else { after(needle) };
+            literal_prefix(&rest?)
         }
     }
 }
@@ -415,7 +434,8 @@ pub fn run_emit(field: &str, lit: &str, hist: &mut Hist) -> (String, String) {
     let mut inc = MemFiles(prog.files.clone());
     let defs: Vec<(&str, &str)> = prog.defines.iter().map(|(a, b)| (a.as_str(), b.as_str())).collect();
     let r = guard(|| {
-        rssl::compile(rssl::CompileArgs::new("main.rssl", &mut inc, tgt.target()).no_pipeline_mode().defines(&defs))
+        let args = rssl::CompileArgs::new("main.rssl", &mut inc, tgt.target()).defines(&defs);
+        rssl::compile(if prog.pipeline { args } else { args.no_pipeline_mode() })
     });
     match r {
         Err(p) => (format!("!panic {}", p), format!("FAIL:panic {}", p)),
@@ -986,13 +1006,24 @@ pub fn generate(args: &Args, rng: &mut Rng, out: &mut Out, hist: &mut Hist) -> (
     let mut tries = 0u64;
     while emitted < n_emit && tries < n_emit * 20 {
         tries += 1;
-        let lit = gen_emit_literal(rng, hist);
+        let mut lit = gen_emit_literal(rng, hist);
         let tgt = *rng.pick(&[Tgt::Dx, Tgt::Dx, Tgt::Msl, Tgt::Msl, Tgt::Vk]);
         // half of the cases in the 12 original contexts, half in the declaration / statement forms of TEMPLATES
         let ctx = if rng.chance(1, 2) {
             *rng.pick(&["stmt", "stmt", "stmt", "neg", "init", "initf", "initneg", "enumcast", "arr", "enumv", "targ", "incl", "def", "paste"])
         } else {
-            rng.pick(TEMPLATES).0
+            let t = rng.pick(TEMPLATES);
+            if t.1 {
+                // integer-only forms: sizes, labels, attribute arguments (1 .. 2^16, every base, with and without `u`)
+                let v = if rng.chance(1, 2) { rng.range(1, 64) as u64 } else { rng.range(1, 65536) as u64 };
+                let body = match rng.below(3) {
+                    0 => format!("{}", v),
+                    1 => format!("0x{:x}", v),
+                    _ => format!("0{:o}", v),
+                };
+                lit = format!("{}{}", body, rng.pick(&["", "", "u", "U"]));
+            }
+            t.0
         };
         let field = format!("{}.{}", tgt.name(), ctx);
         let (obs, orc) = run_emit(&field, &lit, hist);
